@@ -12,6 +12,7 @@ Streams: constants, SHA-512 (model vs hashlib vs Srp.digest), to_byte_array / pa
 from __future__ import annotations
 
 import ast
+import collections
 import concurrent.futures
 import hashlib
 import json
@@ -72,13 +73,86 @@ def exc_class(e):
     return "crash" if isinstance(e, (ValueError, OverflowError)) else "other:" + type(e).__name__
 
 
+class OsShim:
+    """Stands for the name `os` inside aiohomekit.crypto.srp: urandom() hands out the queued byte strings, everything
+    else is the real os module.  The code under test keeps its own generate_private_key / _create_salt_bytes."""
+
+    def __init__(self, queue):
+        self.queue, self.calls = list(queue), []
+
+    def urandom(self, n):
+        self.calls.append(n)
+        if not self.queue or len(self.queue[0]) != n:
+            raise RuntimeError("seam: unexpected os.urandom request")
+        return self.queue.pop(0)
+
+    def __getattr__(self, name):
+        return getattr(os, name)
+
+
+SEAM_USED = collections.Counter()
+
+
 def impl_client(code: str, a: int, salt: bytes, B_b: bytes):
     import aiohomekit.crypto.srp as srp
-    with SEAM_LOCK, mock.patch.object(srp.SrpClient, "generate_private_key", staticmethod(lambda: a)):
-        c = srp.SrpClient(USER, code)
+    c = None
+    if 0 <= a < 1 << 128 and getattr(srp, "os", None) is not None:
+        shim = OsShim([a.to_bytes(16, "big")])
+        try:
+            with SEAM_LOCK, mock.patch.object(srp, "os", shim):
+                c = srp.SrpClient(USER, code)
+            if shim.calls != [16]:
+                c = None
+        except RuntimeError:
+            c = None
+    if c is None:        # the ephemeral is not drawn through os.urandom(16) (any more): fix it one level up
+        SEAM_USED["client:generate_private_key"] += 1
+        with SEAM_LOCK, mock.patch.object(srp.SrpClient, "generate_private_key", staticmethod(lambda: a)):
+            c = srp.SrpClient(USER, code)
+    else:
+        SEAM_USED["client:os.urandom"] += 1
     c.set_salt(bytearray(salt))
     c.set_server_public_key(bytes(B_b))
     return c
+
+
+def impl_srpserver(code: str, salt: bytes, b: int, int_path: bool, A_b: bytes, M1s):
+    """The real SrpServer with salt and ephemeral fixed through os.urandom; public API only.
+    -> dict(status ok|raised|other:X, B_b, K, accepts, M2, M2_int)"""
+    import aiohomekit.crypto.srp as srp
+    out = dict(status="ok", B_b=b"", K=b"", accepts=[], M2=b"", M2_int=b"")
+    try:
+        s = None
+        if getattr(srp, "os", None) is not None:
+            shim = OsShim([bytes(salt), b.to_bytes(16, "big")])
+            try:
+                with SEAM_LOCK, mock.patch.object(srp, "os", shim):
+                    s = srp.SrpServer(USER, code)
+                if shim.calls != [16, 16]:
+                    s = None
+            except RuntimeError:
+                s = None
+        if s is None:
+            SEAM_USED["server:methods"] += 1
+            with SEAM_LOCK, mock.patch.object(srp.SrpServer, "_create_salt_bytes", lambda self: bytes(salt)), \
+                    mock.patch.object(srp.SrpServer, "generate_private_key", staticmethod(lambda: b)):
+                s = srp.SrpServer(USER, code)
+        else:
+            SEAM_USED["server:os.urandom"] += 1
+        out["B_b"] = bytes(s.get_public_key_bytes())
+        s.set_client_public_key(int.from_bytes(A_b, "big") if int_path else bytes(A_b))
+        out["K"] = bytes(s.get_session_key_bytes())
+        out["accepts"] = [1 if s.verify_clients_proof_bytes(bytes(m)) else 0 for m in M1s]
+        out["M2"] = bytes(s.get_proof_bytes(bytes(M1s[0])))
+        try:
+            out["M2_int"] = int(s.get_proof(int.from_bytes(M1s[0], "big"))).to_bytes(64, "big")
+        except (ValueError, OverflowError):
+            out["M2_int"] = b"raised"
+    except (ValueError, OverflowError):
+        out = dict(status="raised", B_b=b"", K=b"", accepts=[], M2=b"", M2_int=b"")
+    except Exception as e:  # noqa
+        out = dict(status="other:" + type(e).__name__, B_b=b"", K=b"", accepts=[], M2=b"", M2_int=b"")
+    return out
 
 
 def impl_run(code, a, salt, B_b, Ms):
@@ -102,7 +176,10 @@ def impl_pair_setup(code, a, salt, B_b, M2, ref_K=None):
     from aiohomekit.exceptions import AuthenticationError
     from aiohomekit.protocol import perform_pair_setup_part2
     from aiohomekit.protocol.tlv import TLV
-    with SEAM_LOCK, mock.patch.object(srp.SrpClient, "generate_private_key", staticmethod(lambda: a)):
+    shim = OsShim([a.to_bytes(16, "big")] if 0 <= a < 1 << 128 else [])
+    use_os = bool(shim.queue) and getattr(srp, "os", None) is not None and SEAM_USED["client:generate_private_key"] == 0
+    with SEAM_LOCK, (mock.patch.object(srp, "os", shim) if use_os else
+                     mock.patch.object(srp.SrpClient, "generate_private_key", staticmethod(lambda: a))):
         gen = perform_pair_setup_part2(code, "00000000-0000-0000-0000-000000000000", bytearray(salt), bytearray(B_b))
         req, _expected = next(gen)
     d = dict(req)
@@ -561,6 +638,119 @@ def gen_sequences(tier, seed, cases):
     return seqs
 
 
+# ---------------------------------------------------------------- SrpServer stream (extension)
+def zero_key_forged(salt: bytes, A_hashed: bytes, B_b: bytes) -> bytes:
+    """The proof anybody can compute for A = 0 (mod N): S = 0, K = H(PAD(0)); no setup code involved."""
+    return R.Hb(R.H_GROUP, R.Hb(USER.encode()), salt, A_hashed, B_b, R.Hb(R.PAD(0)))
+
+
+def gen_srpserver(tier, cases):
+    by = {c["id"]: c for c in cases if c.get("B_b") is None and c["code"] == c["server_code"]}
+    out = []
+
+    def mk(sid, kind, src, int_path, A=None, A_b=None):
+        out.append(dict(id=sid, kind=kind, code=src["code"], salt=src["salt"], a=src["a"], b=src["b"], int_path=int_path,
+                        A=A, A_b=A_b))
+    c0, c5 = by.get("0"), by.get("5")
+    if c5:
+        mk("v5", "honest:" + c5["kind"], c5, False)
+    if c0:
+        mk("vz", "zero-key:int", c0, True, A=0)
+    if tier != "quick":
+        for n, c in enumerate([c for c in cases if c["id"].isdigit()][:18]):
+            if c["id"] != "5":
+                mk("v" + c["id"], "honest:" + c["kind"], c, n % 2 == 1)
+        if c0:
+            mk("vzb", "zero-key:bytes", c0, False, A=0)
+            mk("vn", "zero-key:A=N", c0, True, A=R.N)
+            mk("vn1", "special:A=N+1", c0, True, A=R.N + 1)
+            mk("v1", "special:A=1", c0, False, A=1)
+            mk("vbig", "special:int-too-big", c0, True, A_b=(b"\x01" + bytes(384)).hex())
+            mk("vshort", "special:383-byte-A", c0, False, A_b=R.PAD(pow(R.G, c0["a"], R.N))[1:].hex())
+    return out
+
+
+def srpserver_phase(case):
+    """Implementation (real SrpServer) + reference accessory for one SrpServer case (Python only, serial)."""
+    code, salt, b = case["code"], bytes.fromhex(case["salt"]), case["b"]
+    acc = R.Accessory(code.encode(), salt, b)
+    honest = case["A"] is None and case["A_b"] is None
+    if honest:
+        cv = R.client_values(code.encode(), salt, case["a"], acc.B_b)
+        A_b, M1 = cv["A_b"], cv["M1"]
+        wrong = R.client_values(wrong_of(code).encode(), salt, case["a"], acc.B_b)["M1"]
+        f0, f1 = bytearray(M1), bytearray(M1)
+        f0[0] ^= 0x80
+        f1[63] ^= 1
+        M1s = [M1, bytes(f0), bytes(f1), wrong, M1.lstrip(b"\x00") if M1[0] == 0 else M1[1:], b"\x00" + M1]
+    else:
+        A_b = bytes.fromhex(case["A_b"]) if case["A_b"] is not None else R.PAD(case["A"])
+        M1s = [zero_key_forged(salt, A_b, acc.B_b), bytes(range(64))]
+    fits = len(A_b) == 384
+    impl = impl_srpserver(code, salt, b, case["int_path"], A_b, M1s)
+    ref = None
+    if fits:
+        ref = [acc.receive(A_b, m) for m in M1s]
+    return dict(case=case, acc=acc, A_b=A_b, M1s=M1s, impl=impl, ref=ref, honest=honest, salt=salt,
+                zero_class=fits and int.from_bytes(A_b, "big") % R.N == 0)
+
+
+def srpserver_exprs(Q, guard):
+    c = Q["case"]
+    return [f"srpserver_case {'true' if guard else 'false'} {'true' if c['int_path'] else 'false'} {lit(USER.encode())} "
+            f"{lit(c['code'].encode())} {lit(Q['salt'])} {c['b']} {lit(Q['A_b'])} [{'; '.join(lit(m) for m in Q['M1s'])}]"]
+
+
+def srpserver_judge(Q, mres, guard):
+    c, impl, ref = Q["case"], Q["impl"], Q["ref"]
+    viol = []
+    m = mres[0]
+    if m[0] == [1]:
+        model = dict(status="ok", B_b=bytes(m[1]), K=bytes(m[2]), accepts=list(m[3]), M2=bytes(m[4]),
+                     M2_int=b"raised" if m[5] == [999] else bytes(m[5]))
+    else:
+        model = dict(status="raised", B_b=b"", K=b"", accepts=[], M2=b"", M2_int=b"")
+    hexd = lambda d: {k: (v.hex() if isinstance(v, bytes) else v) for k, v in d.items()}
+    payload = dict(case=c, impl=hexd(impl), model=hexd(model), client_public_key=Q["A_b"].hex(), client_proofs=[x.hex() for x in Q["M1s"]])
+
+    def V(key, what, found, **extra):
+        viol.append(violation(key, what, found, **payload, **extra))
+    broken = False
+    if ref is not None and impl["status"] == "ok":
+        r0 = ref[0]
+        if impl["B_b"] != Q["acc"].B_b:
+            V("srpserver:public-key", f"SrpServer's B_b is not PAD((k v + g^b) mod N) kind={c['kind']}", True, expected_B_b=Q["acc"].B_b.hex())
+            broken = True
+        if not Q["zero_class"]:
+            if impl["K"] != r0["K"]:
+                V("srpserver:session-key", f"SrpServer's session key differs from the conformant accessory's kind={c['kind']}", True,
+                  expected_K=r0["K"].hex())
+                broken = True
+            for mm, got, rv in zip(Q["M1s"], impl["accepts"], ref):
+                if len(mm) == 64 and bool(got) != rv["ok"]:
+                    V("srpserver:proof-verdict", f"SrpServer {'accepts' if got else 'rejects'} a client proof the conformant accessory "
+                      f"{'rejects' if got else 'accepts'} kind={c['kind']}", True, offered=mm.hex())
+                    broken = True
+                    break
+            if len(Q["M1s"][0]) == 64 and impl["M2"] != r0["M2"]:
+                V("srpserver:accessory-proof", f"SrpServer's proof is not H(PAD(A) | M1 | K) kind={c['kind']}", True, expected_M2=r0["M2"].hex())
+                broken = True
+            if len(Q["M1s"][0]) == 64 and impl["M2_int"] != r0["M2"]:
+                V("srpserver:get-proof-int", f"SrpServer.get_proof(int) is not the proof for the 64-byte M1 (leading zero of M1: "
+                  f"{Q['M1s'][0][0] == 0}) kind={c['kind']}", True, expected_M2=r0["M2"].hex())
+                broken = True
+    same = all(impl[k] == model[k] for k in ("status", "B_b", "K", "accepts", "M2", "M2_int"))
+    if not same and not broken:
+        diff = [k for k in ("status", "B_b", "K", "accepts", "M2", "M2_int") if impl[k] != model[k]]
+        V("srpserver:model-mismatch", f"SrpServer and Model/SrpServer.v (guard={guard}) differ on {diff} kind={c['kind']}", False,
+          broken="correspondence Model/SrpServer.v <-> aiohomekit/crypto/srp.py::SrpServer")
+    zero_accepted = bool(Q["zero_class"] and impl["status"] == "ok" and impl["accepts"] and impl["accepts"][0])
+    if zero_accepted and os.environ.get("VERIF_C02_STRICT_SRPSERVER") == "1":
+        V("srpserver:zero-public-key-accepted", "SrpServer accepts A = 0 (mod N) with a proof computed without the setup code "
+          "(RFC 5054 2.5.4: the server MUST abort)", True)
+    return dict(case=c, viol=viol, impl_status=impl["status"], zero_accepted=zero_accepted)
+
+
 def gen_sha(tier, seed):
     r = rng(seed, "c02sha")
     lens = list(range(0, 300)) + [367, 368, 383, 384, 385, 399, 400, 511, 512, 768, 832, 976, 1023, 1024]
@@ -592,6 +782,7 @@ def run(ctx):
     workers = int(os.environ.get("VERIF_C02_WORKERS", "10" if tier == "quick" else "12"))
     cov = Coverage("exchange: distinct (code, server code, salt, a, b, B_b) for which all three parties produced a result; "
                    "sequence: every step of every session sequence (a step is a distinct history); "
+                   "srpserver: distinct (code, salt, b, client public key, path) on which SrpServer, model and reference ran; "
                    "sha512: distinct message; to_byte_array/pad_left: distinct argument tuple")
     viols = []
     import aiohomekit.crypto.srp as srp
@@ -629,6 +820,11 @@ def run(ctx):
     FRESH_BUDGET[0] = 8
     plain_P = [impl_phase(c) for c in cases]
     seq_P = [[impl_phase(st) for st in sq["steps"]] for sq in seqs]
+    srv_cases = gen_srpserver(tier, cases) if not ctx.get("replay") else []
+    probe = impl_srpserver("000-00-000", bytes(16), 5, True, R.PAD(0),
+                           [zero_key_forged(bytes(16), R.PAD(0), R.Accessory(b"000-00-000", bytes(16), 5).B_b)])
+    srv_guard = not (probe["status"] == "ok" and probe["accepts"] == [1])      # which variant of the class is this?
+    srv_Q = [srpserver_phase(c) for c in srv_cases]
     all_P = plain_P + [P for l in seq_P for P in l]
     job_of, exprs_list = {}, []
     for P in all_P:                       # one model evaluation per distinct input (the model has no history)
@@ -641,7 +837,17 @@ def run(ctx):
     t_impl = time.time()
 
     # ---- all model evaluations on one pool; the long jobs (exchanges) are queued first
-    jobs = [(lambda n=n, e=e: model_eval(ctx, f"ex_{n}", e, big=True)) for n, e in enumerate(exprs_list)]
+    # (the first SrpServer evaluations ride in the same coqc process as an exchange evaluation: saves loading BigN again)
+    srv_e = [srpserver_exprs(Q, srv_guard) for Q in srv_Q]
+    n_ride = min(len(srv_e), len(exprs_list)) if tier == "quick" else 0
+    jobs = [(lambda n=n, e=e: model_eval(ctx, f"ex_{n}", e + (srv_e[n] if n < n_ride else []), big=True)) for n, e in enumerate(exprs_list)]
+    jobs += [(lambda n=n: model_eval(ctx, f"srv_{n}", srv_e[n], big=True)) for n in range(n_ride, len(srv_e))]
+    plainz = []
+    if tier != "quick" and plain_P:
+        # axiom-free cross-check of the BigN evaluator: A_b once through powm on plain Z (about 1 s per modular multiplication)
+        plainz = [P for P in plain_P if P["impl"]["status"] == "ok"][:1] + [P for P in plain_P if P["case"]["kind"] == "a-small"][:2]
+        jobs += [(lambda n=n, P=P: model_eval(ctx, f"plainz_{n}", [f"PAD HK_KEY_LENGTH (powm G3072 {P['a']} N3072)"], timeout=2400))
+                 for n, P in enumerate(plainz)]
     jobs += [(lambda i=i, part=part: model_eval(ctx, f"sha_{i}", ["map sha_case [" + "; ".join(lit(m) for m in part) + "]"])[0])
              for i, part in enumerate(sha_parts)]
     jobs.append(lambda: model_eval(ctx, "tba", ["map (fun p => to_byte_array_case (fst p) (snd p)) ["
@@ -650,13 +856,42 @@ def run(ctx):
                                                     + "; ".join(f"({lit(d)}, {ln})" for d, ln in pl_cases) + "]"])[0])
     jobs.append(lambda: model_eval(ctx, "consts", ["constants_case"])[0])
     out = pool_map(lambda f: f(), jobs, workers)
-    ex_out = out[:len(exprs_list)]
-    sha_model = [d for part in out[len(exprs_list):len(exprs_list) + len(sha_parts)] for d in part]
+    ex_out = [r_[:len(e)] for r_, e in zip(out[:len(exprs_list)], exprs_list)]
+    o = len(exprs_list)
+    srv_out = [out[n][len(exprs_list[n]):] for n in range(n_ride)] + out[o:o + len(srv_Q) - n_ride]
+    o += len(srv_Q) - n_ride
+    plainz_out = out[o:o + len(plainz)]
+    o += len(plainz)
+    sha_model = [d for part in out[o:o + len(sha_parts)] for d in part]
     tba_model, pl_model, mc = out[-3], out[-2], out[-1]
     t_model = time.time()
     results = [judge(ctx, P, ex_out[P["job"]]) for P in plain_P]
     seq_results = [judge(ctx, P, ex_out[P["job"]], seq=(sq["name"], k, sq["steps"][:k]))
                    for sq, l in zip(seqs, seq_P) for k, P in enumerate(l)]
+
+    # ---- SrpServer stream
+    srv_results = [srpserver_judge(Q, mr, srv_guard) for Q, mr in zip(srv_Q, srv_out)]
+    srv_viols = [v for r_ in srv_results for v in r_["viol"]]
+    for r_ in srv_results:
+        c = r_["case"]
+        cov.case("srv" + json.dumps(c, sort_keys=True), True, stream="srpserver", srpserver_kind=c["kind"].split(":")[0],
+                 srpserver_path="int" if c["int_path"] else "bytes", srpserver_impl=r_["impl_status"],
+                 sample=dict(stream="srpserver", kind=c["kind"], code=c["code"], salt=c["salt"], b=str(c["b"]), int_path=c["int_path"],
+                             status=r_["impl_status"], zero_key_accepted=r_["zero_accepted"]) if c["id"] in ("v5", "vz") else None)
+    cov.extra["srpserver"] = dict(
+        variant="guarded (A mod N = 0 rejected)" if srv_guard else "unguarded (class as it is: no check of the client's public key)",
+        cases=len(srv_results),
+        zero_key_accepted=sorted(r_["case"]["kind"] for r_ in srv_results if r_["zero_accepted"]),
+        note="SrpServer accepting A = 0 (mod N) with a proof that needs no setup code is theorem srpserver_zero_key_refuted; it is "
+             "outside what C02 states (the controller), so it is recorded here and becomes a violation only with "
+             "VERIF_C02_STRICT_SRPSERVER=1; fixes/C02-srpserver-zero-public-key.patch adds the RFC 5054 check")
+    cov.extra["seams"] = dict(SEAM_USED)
+    for P, mr in zip(plainz, plainz_out):
+        ok = bytes(mr) == P["impl"]["A_b"]
+        cov.case("plainz" + str(P["a"]), True, stream="plain-Z-crosscheck", plainz_agree=ok)
+        if not ok:
+            viols.append(violation("plainz:public-key", "A_b evaluated with powm on plain Z (no BigN, no Uint63 axioms) differs from the "
+                                   "implementation", False, a=str(P["a"]), model=bytes(mr).hex(), impl=P["impl"]["A_b"].hex()))
 
     # ---- session sequences
     seq_viols = []           # reported after the single-exchange violations (the runner keeps the first per key)
@@ -769,6 +1004,7 @@ def run(ctx):
                                    impl=im, model=mo))
         cov.case(f"pl{d.hex()}/{ln}", True, stream="pad_left", pad_result=im.split(" ")[0])
 
+    viols += srv_viols
     viols += seq_viols
     cov.extra["informational_skip_leading_zero_convention"] = dict(
         note="exchanges on which an accessory hashing A, B, S without leading zero bytes in M1/K (not the convention DESIGN.md fixes) "
